@@ -119,6 +119,9 @@ class RedisStorage(QueueStorage):
 
     def load(self):
         for key in self.redis.keys(self.prefix+'*'):
+            if isinstance(key, bytes):
+                # Keys come back as bytes; ids are handed out as strings.
+                key = key.decode('utf-8')
             if key != self.queue_key:
                 id = key[len(self.prefix):]
                 timestamp = self.redis.hget(key, 'timestamp') or time.time()
